@@ -6,7 +6,9 @@
 //!   wacsim replay <replay-file.json>
 //!   wacsim selfcheck
 
+mod corpus;
 mod engine;
+mod gen;
 mod props;
 mod seams;
 mod supervisor;
@@ -24,6 +26,11 @@ fn props() -> Vec<PropDef> {
         id: "C20",
         run: props::c20::run,
         arena_sensitive: false,
+    });
+    v.push(PropDef {
+        id: "C16",
+        run: props::c16::run,
+        arena_sensitive: true,
     });
     v
 }
@@ -204,6 +211,9 @@ fn main() {
             }
             let report = supervisor::run_batch(cfg);
             std::process::exit(report.exit_code);
+        }
+        "corpus" => {
+            print!("{}", corpus::describe());
         }
         "selfcheck" => match seams::seam_h_selfcheck() {
             Ok(n) => println!("seam H live: 16 hash seeds gave {n} canary orders, each reproducible"),
